@@ -13,7 +13,7 @@ from vmon.libutil import monitored
 
 LEVEL = "exploration"
 SHARDS = {"quick": 8, "thorough": 16}
-MUST = ["read_as_int.evaluations", "read_as_bytes.evaluations", "insitu.reads", "wide.reads", "indomain.boundary_reads", "stateful.reads"]
+MUST = ["read_as_int.evaluations", "read_as_bytes.evaluations", "insitu.reads", "wide.reads", "deep.reads", "indomain.boundary_reads", "stateful.reads"]
 RULE = ("every read_as_int/read_as_bytes/_extract_bits call made by the workload is checked by a postcondition "
         "against int(bitstring[p:p+n],2); workload = all (p,n) with p+n<=48 over 24 structured 6-byte buffers "
         "(exhaustive), all 64 (p%8,n%8) classes at widths up to 4096 bytes, seeded random reads, sequential "
@@ -190,6 +190,38 @@ def run(ctx):
                         getattr(fresh, meth)(n_)
                         ctx.count("evaluations", 2)
                         ctx.count("wide.reads")
+    # ---- 3c. buffers longer than one maximum-size packet (combined segmented packets are): reads that start or end beyond
+    #          byte 65542, narrow and wide, must return the addressed bits like anywhere else --------------------------------
+    deep = bytes(rng.getrandbits(8) for _ in range(140_000))
+    dj = 0
+    for base in (65_530, 65_541, 65_542, 65_543, 69_999, 131_070, 131_084, 139_990):
+        for off in range(8):
+            dj += 1
+            if not ctx.mine(dj):
+                continue
+            for n in (1, 7, 8, 13, 64, 65, 800, 8 * (len(deep) - base) - off, 8 * (len(deep) - base) - off - 3):
+                if n <= 0 or 8 * base + off + n > 8 * len(deep):
+                    continue
+                for meth in ("read_as_int", "read_as_bytes"):
+                    r = RPD(deep)
+                    r.pos = 8 * base + off
+                    s_ = monitored(getattr(r, meth), n)
+                    ctx.count("evaluations")
+                    ctx.count("deep.reads")
+                    if s_.exc is not None:
+                        ctx.violation(f"{meth}/exception/{type(s_.exc).__name__}/beyond-one-max-packet",
+                                      f"{meth}({n}) at bit {8 * base + off} of a {len(deep)}-byte buffer raised {s_.exc!r} although the read fits",
+                                      {"len": len(deep), "pos": 8 * base + off, "nbits": n})
+            # a whole-buffer read from the start, ending beyond 65542 bytes
+            for meth in ("read_as_int", "read_as_bytes"):
+                r = RPD(deep)
+                r.pos = off
+                n = 8 * (base + 5) - off
+                s_ = monitored(getattr(r, meth), n)
+                ctx.count("deep.reads")
+                if s_.exc is not None:
+                    ctx.violation(f"{meth}/exception/{type(s_.exc).__name__}/beyond-one-max-packet", f"{meth}({n}) at bit {off} of a {len(deep)}-byte buffer raised {s_.exc!r}",
+                                  {"len": len(deep), "pos": off, "nbits": n})
     # ---- 4. in situ: the real decoder's own reads -------------------------------------------------
     insitu(ctx)
     # ---- 5. the repository's own tests with the contracts armed -------------------------------------
